@@ -632,8 +632,8 @@ class List(list, base.Symbolic, pg_typing.CustomTyping):
       raise TypeError(
           f'list assignment index must be an integer. Encountered {index!r}.')
 
-  def __delitem__(self, index: int) -> None:
-    """Delete an item from the List."""
+  def __delitem__(self, index: Union[int, slice]) -> None:
+    """Delete an item or a slice from the List."""
     if base.treats_as_sealed(self):
       raise base.WritePermissionError('Cannot delete item from a sealed List.')
 
@@ -642,31 +642,21 @@ class List(list, base.Symbolic, pg_typing.CustomTyping):
           self._error_message('Cannot delete List item while accessor_writable '
                               'is set to False. '
                               'Use \'rebind\' method instead.'))
-    if not isinstance(index, numbers.Integral):
+    if isinstance(index, slice):
+      indices = sorted(range(*self._parse_slice(index)))
+    elif isinstance(index, numbers.Integral):
+      if index < -len(self) or index >= len(self):
+        raise IndexError(
+            f'list index out of range. '
+            f'Length={len(self)}, index={index}')
+      indices = [index + len(self) if index < 0 else index]
+    else:
       raise TypeError(
           f'list index must be an integer. Encountered {index!r}.')
 
-    if index < -len(self) or index >= len(self):
-      raise IndexError(
-          f'list index out of range. '
-          f'Length={len(self)}, index={index}')
-
-    if index < 0:
-      index += len(self)
-    self._ensure_removable()
-    old_value = self.sym_getattr(index)
-    super().__delitem__(index)
-    self._detach(old_value)
-    self._update_children_indices()
-    self._invalidate_content_cache()
-
-    if flags.is_change_notification_enabled():
-      self._notify_field_updates([
-          base.FieldUpdate(
-              self.sym_path + index, self,
-              self._value_spec.element if self._value_spec else None,
-              old_value, pg_typing.MISSING_VALUE)
-      ])
+    updates = self._delete_items(indices)
+    if flags.is_change_notification_enabled() and updates:
+      self._notify_field_updates(updates)
 
   def __add__(self, other: Iterable[Any]) -> 'List':
     """Returns a concatenated List of self and other."""
